@@ -7,7 +7,7 @@ from harness import rcsim
 from harness.common import Ctx, Driver, compare_with_model, load_corpus, shrink_list
 
 ID = "C10"
-SIGS = {"two-connectors", "attempt-after-shutdown", "waiter-wrong-error", "waiter-unbounded", "retries-ended", "busy-loop", "backoff-too-short", "backoff-too-long", "address-excluded", "immediate-retry-same-address"}
+SIGS = {"attempt-while-connected", "two-connectors", "attempt-after-shutdown", "waiter-wrong-error", "waiter-unbounded", "retries-ended", "busy-loop", "backoff-too-short", "backoff-too-long", "address-excluded", "immediate-retry-same-address"}
 RULE = ("fault sequences x schedules on the simulated network (virtual time, unpatched IpPairing/SecureHomeKitConnection against a scaffold accessory doing a real pair-verify): "
         "(A) EVERY sequence of pair-verify outcome classes {success, wrong pairing id, authentication error, other error, no answer} up to length 3 (quick) / 5 (thorough) "
         "x 1..3 advertised addresses x TCP outcomes {refused, timeout, connects to k-th address}, concrete accessory behaviour per class drawn from "
